@@ -280,12 +280,48 @@ def exReq (ep : Endpoint) : Req :=
     (client n1 chosen) or 403 (client n2 chosen) -/
 example : handle exCfg (exReq (.sign "a" true true)) =
     [.resp { status := 200, ip := "1.2.3.4", user := "n1",
-             events := [⟨"getkey", "t0", "a"⟩, ⟨"sign", "t0", "a"⟩] },
+             events := [⟨"getkey", "t0", "k1"⟩, ⟨"sign", "t0", "k1"⟩] },
      forbidden "1.2.3.4" "n2"] := by decide
 
 example : handle exCfg (exReq (.getKey "a")) =
     [.resp { status := 200, ip := "1.2.3.4", user := "n1", events := [⟨"getkey", "t0", "k1"⟩] },
      forbidden "1.2.3.4" "n2"] := by decide
+
+/-! ### F50: the key a token uses is the key that was authorised
+
+  Every token (file, PKCS#11, cloud, worker) resolves the name it is handed through `config.GetKey` once more.
+  Events therefore carry the name of the entry the TOKEN ends up using.  `serveSign` hands the token the requested
+  name (same resolution, same entry: `EntitledFor`'s last conjunct).  `serveGetKey` handed it the name of the
+  RESOLVED entry (`keyConf.Name()`), i.e. a second alias hop: with `build -> mid -> prod`, where `mid` carries its own
+  token and roles, a caller entitled to `mid` only was shown `prod`'s certificate.  Repaired in /repo (bc89e5c: the
+  requested name is passed); the witness below is the configuration on which the old code disclosed the wrong key. -/
+
+/-- what the token layer resolves a name it is handed to -/
+def tokenUses (cfg : Config) (passed : String) : Option Key :=
+  match getKey cfg passed with
+  | .ok k => some k
+  | _ => none
+
+/-- handing the token the REQUESTED name makes it use exactly the authorised entry (the code as repaired) -/
+theorem token_uses_authorised_key (cfg : Config) (n : String) (kc : Key) (h : getKey cfg n = .ok kc) :
+    tokenUses cfg n = some kc := by
+  simp [tokenUses, h]
+
+def f50Cfg : Config :=
+  { clients := [{ key := "L0", valid64 := true, nick := "dev", roles := ["dev"], ca := none }],
+    keys := [{ name := "build", token := "", alias := "mid", roles := [], hide := false },
+             { name := "mid", token := "t0", alias := "prod", roles := ["dev"], hide := false },
+             { name := "prod", token := "t0", alias := "", roles := ["release"], hide := false }],
+    tokens := ["t0"], proxiesOK := true, inNets := fun _ => false }
+
+/-- **getkey_double_hop_orig.**  Handing the token the RESOLVED entry's name (the old `serveGetKey`) makes it use an
+    entry the caller shares no role with: `build` resolves to `mid` (roles: dev, caller entitled), the token resolves
+    `mid` to `prod` (roles: release). -/
+theorem getkey_double_hop_orig :
+    ∃ mid prod c, getKey f50Cfg "build" = .ok mid ∧ c ∈ f50Cfg.clients ∧ allowed c mid = true ∧
+      tokenUses f50Cfg mid.name = some prod ∧ allowed c prod = false ∧ prod.name ≠ mid.name := by
+  refine ⟨⟨"mid", "t0", "prod", ["dev"], false⟩, ⟨"prod", "t0", "", ["release"], false⟩,
+    ⟨"L0", true, "dev", ["dev"], none⟩, by decide, by decide, by decide, by decide, by decide, by decide⟩
 
 /-- premises of `not_entitled_refused` / `malformed_config_is_error`: dangling alias and alias of alias -/
 example : malformed exCfg "d" = true ∧ malformed exCfg "aa" = true ∧
